@@ -182,6 +182,18 @@ def r_singleton(e, R):
                 pre = [s for s in func_nodes(f) if isinstance(s, ast.Assign) and isinstance(s.value, ast.Name) and s.value.id == n.target.id]
                 okr = bool(pre) and all(isinstance(r.value, ast.Name) and r.value.id == pre[0].targets[0].id for r in rets)
                 R.check(okr, "R-SINGLETON", f"{f.short}: returns the pre-increment id", f.short, "return executor_id", "the id returned is not unique", e.loc(f, n))
+    counters = {n.target.id for f in e.prog.funcs.values() if f.module.name == mod for n in func_nodes(f)
+                if isinstance(n, ast.AugAssign) and isinstance(n.target, ast.Name) and n.target.id in globs}
+    for f in e.prog.funcs.values():
+        if f.module.name != mod or f.kind == "module":
+            continue
+        for n in func_nodes(f):
+            if isinstance(n, ast.Assign) and any(isinstance(t, ast.Name) and t.id in globs and t.id in f.globals_decl for t in n.targets):
+                cnt = [t.id for t in n.targets if isinstance(t, ast.Name) and t.id in globs and t.id in f.globals_decl]
+                R.check(not (set(cnt) & counters), "R-SINGLETON", f"{f.short}: the id counter is never overwritten", f.short, norm(n),
+                        "the executor-id counter is assigned (not incremented): ids repeat or go backwards", e.loc(f, n))
+    R.check(len(counters) == 1, "R-SINGLETON", "there is one executor-id counter, advanced by `+= 1`", mod, str(sorted(counters)),
+            "the executor id is no longer advanced by an increment: successive executors share an id", None)
     # the create branch and the replace/reuse branch
     ex_local = None
     for n in func_nodes(fac):
